@@ -22,7 +22,7 @@ SPEC = {
              '(orders selected in one scan start in random relative order), capacity in use and available_capacity '
              'after every event, one order per target, end == start + duration reported at start, hooks and cost '
              'once each, no startable order left at a clock advance; a case is one stream; non-trivial = an order '
-             'overtook an earlier one or waited for its target'),
+             'overtook an earlier one or waited for its target; also: capacity hooks that fail once (the caller asks again later), work-order costs that change with every order, long request histories'),
     'floors': {'quick': {'orders_completed': 5000, 'overtakes': 300, 'waited_for_target': 300,
                          'duplicates_rejected': 300, 'clock_advances_checked': 5000, 'line_orders_completed': 300},
                'thorough': {'orders_completed': 150000, 'overtakes': 9000, 'waited_for_target': 9000,
